@@ -5,6 +5,7 @@ import (
 	"fmt"
 	"math/rand"
 	"strings"
+	"time"
 
 	"verif/harness/pgw"
 )
@@ -14,8 +15,8 @@ import (
 // seeded RNG and enriching the abstract message with the digests of what was
 // chosen (so the trace carries them).
 type Concretiser struct {
-	InDig uint64   // running digest of the bytes produced
-	Ins   []uint64 // its value after each message
+	InDig    uint64   // running digest of the bytes produced
+	Ins      []uint64 // its value after each message
 	X        *Exec
 	Rng      *rand.Rand
 	stmtOids map[string][]int // statement name -> declared parameter types of the last Parse sent under it
@@ -99,6 +100,9 @@ func (c *Concretiser) prepScript(q M) string {
 					}
 					if c.Rng.Intn(3) == 0 {
 						val = otherWidth(val, c.Rng) // the handler's Go type need not have the column's width
+					}
+					if _, isTime := val.(time.Time); isTime && c.Rng.Intn(3) == 0 {
+						val = otherZone(oid, val.(time.Time), c.Rng) // nor need a time be given in UTC
 					}
 					if c.Rng.Intn(4) == 0 {
 						val = pointerTo(val) // a non-nil pointer to the value is the value
@@ -543,6 +547,19 @@ func kindByte(k string) byte {
 // otherWidth hands an integer or float over in another Go type that holds the same value (an int64 for an
 // int2 column, an int32 for an int8 column, a float32 for a float8 column): the column type decides the
 // encoding, not the Go type.
+// otherZone: the same value in another time zone. For a timestamp with time zone that is the same instant; a
+// timestamp without time zone and a date are the wall clock / the calendar day as written, whatever the zone.
+func otherZone(oid int, t time.Time, rng *rand.Rand) any {
+	zone := time.FixedZone("", []int{3600, -8 * 3600, 5*3600 + 1800, 14 * 3600, -12 * 3600, 1}[rng.Intn(6)])
+	switch oid {
+	case 1184:
+		return t.In(zone)
+	case 1114, 1082:
+		return time.Date(t.Year(), t.Month(), t.Day(), t.Hour(), t.Minute(), t.Second(), t.Nanosecond(), zone)
+	}
+	return t
+}
+
 func otherWidth(val any, rng *rand.Rand) any {
 	asInt := func(v int64) any {
 		cands := []any{v, int(v)}
